@@ -63,8 +63,14 @@ func ReadWireMessage(r io.Reader, scope *slip.Scope) (obj slip.Object, err error
 
 // WriteWireMessage writes a length-prefixed S-expression to the writer.
 func WriteWireMessage(w io.Writer, msg slip.Object) error {
-	// Serialize to S-expression string
-	payload := slip.ObjectString(msg)
+	// Serialize to S-expression string. Print so that the peer can read it
+	// back, strings escaped and symbols |quoted| when needed. Objects that
+	// have no readable form are still written as #<...>.
+	p := *slip.DefaultPrinter()
+	p.Escape = true
+	p.Readably = true
+	p.ReadablyError = false
+	payload := string(p.Append(nil, msg, 0))
 
 	// Encode length as 6 uppercase hex digits
 	header := fmt.Sprintf("%06X", len(payload))
